@@ -12,7 +12,8 @@ def configs(tier):
     out = []
     specs = [([3], 0, [], "combos", "none", 1), ([2, 2], 0, [], "combos", "size", 3), ([5], 0, [], "combos", "count", 2),
              ([7], 0, [], "combos", "count", 4), ([], 1, [[2], [1], [3], [4]], "cases", "size", 1), ([1], 0, [], "combos", "none", 1),
-             ([2], 1, [[1], [3]], "combos", "count", 3), ([12], 0, [], "combos", "none", 1), ([23], 0, [], "combos", "size", 2)]
+             ([2], 1, [[1], [3]], "combos", "count", 3), ([12], 0, [], "combos", "none", 1), ([23], 0, [], "combos", "size", 2),
+             ([3], 0, [], "combos", "count", 5), ([2, 2], 0, [], "combos", "count", 9)]
     if tier == "thorough":
         specs += [([8], 0, [], "combos", "none", 1), ([4, 3], 0, [], "combos", "count", 8), ([3, 3], 0, [], "combos", "size", 2),
                   ([], 2, [[1, 1], [1, 2], [2, 1], [2, 2], [3, 1], [3, 2]], "cases", "count", 6)]
